@@ -213,6 +213,8 @@ def main(argv=None):
     ap.add_argument("--runs", type=int)
     ap.add_argument("--workers", type=int, default=int(os.environ.get("VERIF_WORKERS", "0")) or min(16, os.cpu_count() or 4))
     ap.add_argument("--max-wall", type=float)
+    ap.add_argument("--stop-after", type=int, default=int(os.environ.get("VERIF_STOP_AFTER", "0")),
+                    help="self-test aid: stop scheduling further runs once this many unlisted violations were found")
     ap.add_argument("--replay")
     ap.add_argument("--no-evidence", action="store_true")
     ap.add_argument("--dump-digests")
@@ -314,6 +316,13 @@ def batch(a, prop, machine, t0):
                     d[1] += fi
                 agg["digests"].update({int(k): v for k, v in r["digests"].items()})
                 agg["violations"].extend(r["violations"])
+                if a.stop_after and not capped:
+                    fresh = sum(1 for v in agg["violations"]
+                                if match_known(prop, v["plan_min"], v["v"], known, v.get("plan"), v.get("v0")) is None)
+                    if fresh >= a.stop_after:
+                        capped = True
+                        for f2 in pending:
+                            f2.cancel()
                 if len(agg["samples"]) < 3:
                     agg["samples"].extend(r["samples"])
             if capped:
